@@ -798,7 +798,7 @@ func (v *fnVC) builtin(x *ssa.Call, b *ssa.Builtin) {
 	case "append":
 		// result modelled as a fresh backing array holding old ++ new (capacity aliasing abstracted; noted)
 		s := v.val(args[0])
-		v.notes = append(v.notes, "append: result modelled as fresh backing (in-place capacity aliasing abstracted)")
+		v.notes = append(v.notes, "append: result modelled as a fresh backing array; the in-place case is covered for frames by the frame.append obligation, content aliasing between argument and result is abstracted")
 		et := args[0].Type().Underlying().(*types.Slice).Elem()
 		nb := v.newConst("app", "Int")
 		v.assume(app(">", nb, "0"))
